@@ -16,10 +16,13 @@ def sh(cmd, cwd=REPO, timeout=3600):
 
 
 FEATURES = []
+TOOLCHAIN = []
 try:
     _m = json.load(open(os.path.join(seed_dir, "meta.json")))
     if _m.get("features"):
         FEATURES = ["--features", _m["features"]]
+    if _m.get("toolchain"):
+        TOOLCHAIN = ["+" + _m["toolchain"]]       # e.g. the const-generic histogram needs cargo +nightly --features nightly
 except Exception:
     pass
 
@@ -27,7 +30,7 @@ except Exception:
 def demo(label):
     shutil.copy(os.path.join(seed_dir, "demo.rs"), os.path.join(REPO, "tests", "zz_seed_demo.rs"))
     try:
-        rc, out = sh(["cargo", "test", "--offline", "--test", "zz_seed_demo"] + FEATURES)
+        rc, out = sh(["cargo"] + TOOLCHAIN + ["test", "--offline", "--test", "zz_seed_demo"] + FEATURES)
     finally:
         os.remove(os.path.join(REPO, "tests", "zz_seed_demo.rs"))
     tail = [l for l in out.split("\n") if l.startswith("test result") or "error" in l.lower()][:3]
